@@ -32,7 +32,7 @@ def WFUni (s : Shape) : Prop :=
 /-! ### FRI part -/
 
 theorem fri_events_equal (s : Shape) : circuitFri s = nativeFri s := by
-  simp [circuitFri, nativeFri, List.append_assoc]
+  cases hz : s.zk <;> simp [circuitFri, getChallengesPlain, getChallengesHiding, nativeFri, hz, List.append_assoc]
 
 /-! ### batch: rounds -/
 
@@ -448,5 +448,130 @@ theorem unbalanced_bus_rejected {V : Type} (sem : Sem V) (s : Shape) (h : WFBatc
   refine ⟨nativeBatch s, batch_scripts_equal_partial s h, ?_⟩
   apply failing_check_rejected sem _ env _ _ hbad
   simp [nativeBatch, presentTerminals]
+
+/-! ### proof-of-work: which witness is judged against how many bits (both directions)
+
+The seeded regression C01-b (the hiding PCS's `get_challenges_circuit` handing `params.commit_pow_bits` to
+the *query-phase* `check_pow_witness`) is a circuit script whose query `pow` event carries the wrong bit
+count: invisible whenever the two counts are equal (every symmetric test default), unsound when
+`0 < commit < query` (a lazy prover's witness passes), incomplete when `commit = 0 < query` (the event
+disappears: the witness is not even absorbed) or `commit > query`. The statements below say what the
+modelled circuit does for *every* pair of bit counts and for both PCS flavours; on the real code the
+same is exercised by targets whose verifying parameters are asymmetric and by an adversarial prover
+that grinds fewer / more bits than demanded (`grind:c:q`), and the driver command `pows` ties the model's
+`pow` events to the phases seen decisive there. -/
+
+/-- The `pow` events a verifier of shape `s` has to carry: every commit-phase witness against
+`commitPowBits`, the query-phase witness against `queryPowBits`, nothing for a count of 0. -/
+def PowSpec (s : Shape) (bits : Nat) (w : Name) : Prop :=
+  (bits = s.commitPowBits ∧ bits ≠ 0 ∧ ∃ r, r < s.friRounds ∧ w = Name.commitPow r)
+    ∨ (bits = s.queryPowBits ∧ bits ≠ 0 ∧ w = Name.queryPow)
+
+/-- The native FRI transcript judges exactly the witnesses of `PowSpec`, each against its own bit count. -/
+theorem native_fri_pow (s : Shape) (bits : Nat) (w : Name) :
+    Ev.pow bits w ∈ nativeFri s ↔ PowSpec s bits w := by
+  unfold nativeFri PowSpec powEv
+  by_cases hc : s.commitPowBits = 0 <;> by_cases hq : s.queryPowBits = 0 <;>
+    simp [hc, hq]
+  · exact ⟨fun h h' => absurd h h', fun h h' => absurd h h'⟩
+  · constructor
+    · rintro ⟨rfl, rfl⟩; exact Or.inr ⟨rfl, hq, rfl⟩
+    · rintro (⟨h, h', _⟩ | ⟨h, _, h'⟩)
+      · exact absurd h h'
+      · exact ⟨h, h'⟩
+  · constructor
+    · rintro ⟨r, hr, rfl, rfl⟩; exact Or.inl ⟨rfl, hc, r, hr, rfl⟩
+    · rintro (⟨h, _, r, hr, h'⟩ | ⟨h, h', _⟩)
+      · exact ⟨r, hr, h, h'⟩
+      · exact absurd h h'
+  · constructor
+    · rintro (⟨r, hr, rfl, rfl⟩ | ⟨rfl, rfl⟩)
+      · exact Or.inl ⟨rfl, hc, r, hr, rfl⟩
+      · exact Or.inr ⟨rfl, hq, rfl⟩
+    · rintro (⟨h, _, r, hr, h'⟩ | ⟨h, _, h'⟩)
+      · exact Or.inl ⟨r, hr, h, h'⟩
+      · exact Or.inr ⟨h, h'⟩
+
+/-- Observing opened values carries no proof-of-work event. -/
+theorem observe_rounds_no_pow (rounds : List Round) (bits : Nat) (w : Name) :
+    Ev.pow bits w ∉ observeRounds rounds := by
+  simp [observeRounds, observeRound, observeMat]
+
+/-- The `pow` events of the native batch verifier: exactly `PowSpec`. -/
+theorem native_batch_pow (s : Shape) (bits : Nat) (w : Name) :
+    Ev.pow bits w ∈ (nativeBatch s).events ↔ PowSpec s bits w := by
+  rw [← native_fri_pow]
+  simp [nativeBatch, observe_rounds_no_pow]
+
+/-- The `pow` events of the native uni verifier: exactly `PowSpec`. -/
+theorem native_uni_pow (s : Shape) (bits : Nat) (w : Name) :
+    Ev.pow bits w ∈ (nativeUni s).events ↔ PowSpec s bits w := by
+  rw [← native_fri_pow]
+  simp [nativeUni, observe_rounds_no_pow]
+
+/-- The batch circuit (plain or hiding PCS, any pair of bit counts) judges the query-phase witness against
+`queryPowBits` and every commit-phase witness against `commitPowBits` — no other `pow` event, none missing. -/
+theorem circuit_batch_pow (s : Shape) (h : WFBatch s) :
+    ∃ sc, circuitBatch s = .ok sc ∧ ∀ bits w, Ev.pow bits w ∈ sc.events ↔ PowSpec s bits w :=
+  ⟨nativeBatch s, batch_scripts_equal_partial s h, native_batch_pow s⟩
+
+/-- The same for the uni circuit. -/
+theorem circuit_uni_pow (s : Shape) (h : WFUni s) :
+    ∃ sc, circuitUni s = .ok sc ∧ ∀ bits w, Ev.pow bits w ∈ sc.events ↔ PowSpec s bits w :=
+  ⟨nativeUni s, uni_scripts_equal_partial s h, native_uni_pow s⟩
+
+/-- Soundness of the composition for a failing proof-of-work: if the script judges `w` against `bits` and
+that judgement fails for the proof data (under the circuit's own semantics), the circuit is not satisfied. -/
+theorem failing_pow_rejected {V : Type} (sem : Sem V) (sc : Script) (env : Name → V) (bits : Nat) (w : Name)
+    (hmem : Ev.pow bits w ∈ sc.events)
+    (hbad : ∀ k, sc.events[k]? = some (Ev.pow bits w) → ¬ sem.powOk (sc.events.take k) env bits w) :
+    ¬ accepts sem sc env := by
+  intro ha
+  obtain ⟨k, hk⟩ := List.mem_iff_getElem?.mp hmem
+  exact hbad k hk (ha.1 k bits w hk)
+
+/-- A query-phase witness that does not satisfy `queryPowBits` bits (a lazy prover: ground for fewer bits
+than the verifying parameters demand) is rejected by the batch circuit of every well-formed shape, whatever
+`commitPowBits` is and whichever PCS is used. -/
+theorem under_ground_query_rejected {V : Type} (sem : Sem V) (s : Shape) (h : WFBatch s) (env : Name → V)
+    (hq : s.queryPowBits ≠ 0)
+    (hbad : ∀ k, (nativeBatch s).events[k]? = some (Ev.pow s.queryPowBits Name.queryPow) →
+      ¬ sem.powOk ((nativeBatch s).events.take k) env s.queryPowBits Name.queryPow) :
+    ∃ sc, circuitBatch s = .ok sc ∧ ¬ accepts sem sc env :=
+  ⟨nativeBatch s, batch_scripts_equal_partial s h,
+    failing_pow_rejected sem _ env _ _ ((native_batch_pow s _ _).mpr (Or.inr ⟨rfl, hq, rfl⟩)) hbad⟩
+
+/-- The same for the commit-phase witness of any FRI round `r`. -/
+theorem under_ground_commit_rejected {V : Type} (sem : Sem V) (s : Shape) (h : WFBatch s) (env : Name → V)
+    (r : Nat) (hr : r < s.friRounds) (hc : s.commitPowBits ≠ 0)
+    (hbad : ∀ k, (nativeBatch s).events[k]? = some (Ev.pow s.commitPowBits (Name.commitPow r)) →
+      ¬ sem.powOk ((nativeBatch s).events.take k) env s.commitPowBits (Name.commitPow r)) :
+    ∃ sc, circuitBatch s = .ok sc ∧ ¬ accepts sem sc env :=
+  ⟨nativeBatch s, batch_scripts_equal_partial s h,
+    failing_pow_rejected sem _ env _ _ ((native_batch_pow s _ _).mpr (Or.inl ⟨rfl, hc, r, hr, rfl⟩)) hbad⟩
+
+/-- Uni circuit: an under-ground query-phase witness is rejected. -/
+theorem uni_under_ground_query_rejected {V : Type} (sem : Sem V) (s : Shape) (h : WFUni s) (env : Name → V)
+    (hq : s.queryPowBits ≠ 0)
+    (hbad : ∀ k, (nativeUni s).events[k]? = some (Ev.pow s.queryPowBits Name.queryPow) →
+      ¬ sem.powOk ((nativeUni s).events.take k) env s.queryPowBits Name.queryPow) :
+    ∃ sc, circuitUni s = .ok sc ∧ ¬ accepts sem sc env :=
+  ⟨nativeUni s, uni_scripts_equal_partial s h,
+    failing_pow_rejected sem _ env _ _ ((native_uni_pow s _ _).mpr (Or.inr ⟨rfl, hq, rfl⟩)) hbad⟩
+
+/-- Uni circuit: an under-ground commit-phase witness is rejected. -/
+theorem uni_under_ground_commit_rejected {V : Type} (sem : Sem V) (s : Shape) (h : WFUni s) (env : Name → V)
+    (r : Nat) (hr : r < s.friRounds) (hc : s.commitPowBits ≠ 0)
+    (hbad : ∀ k, (nativeUni s).events[k]? = some (Ev.pow s.commitPowBits (Name.commitPow r)) →
+      ¬ sem.powOk ((nativeUni s).events.take k) env s.commitPowBits (Name.commitPow r)) :
+    ∃ sc, circuitUni s = .ok sc ∧ ¬ accepts sem sc env :=
+  ⟨nativeUni s, uni_scripts_equal_partial s h,
+    failing_pow_rejected sem _ env _ _ ((native_uni_pow s _ _).mpr (Or.inl ⟨rfl, hc, r, hr, rfl⟩)) hbad⟩
+
+/-- Both copies of `get_challenges_circuit` (plain and hiding PCS) carry exactly the `pow` events of `PowSpec`. -/
+theorem get_challenges_pow (s : Shape) (bits : Nat) (w : Name) :
+    Ev.pow bits w ∈ (if s.zk then getChallengesHiding s else getChallengesPlain s) ↔ PowSpec s bits w := by
+  rw [← native_fri_pow, ← fri_events_equal]
+  simp [circuitFri]
 
 end P3R.C01
